@@ -107,8 +107,10 @@ def tab_lifecycle(chk: Check) -> None:
     gs = prog.func('processes.Process.get_states')
     rets = [s for s in ast.walk(gs.node) if isinstance(s, ast.Return)]
     first_ok = False
-    if len(rets) == 1 and isinstance(rets[0].value, (ast.Tuple, ast.List)) and rets[0].value.elts:
-        first = rets[0].value.elts[0]
+    from ..rules import built_sequence
+    seq = built_sequence(gs)
+    if seq is not None and seq.initial:
+        first = seq.initial[0]
         if isinstance(first, ast.Subscript):
             v = prog.fold(gs.module, first.slice, gs.owner_class)
             first_ok = repr(v) == 'ProcessState.CREATED'
